@@ -16,6 +16,7 @@ package main
 import (
 	"bytes"
 	"context"
+	"database/sql"
 	"encoding/json"
 	"errors"
 	"fmt"
@@ -985,6 +986,72 @@ func upInflight(args []string) error {
 	return ew.close()
 }
 
+// upLockedRead: an observer reads while another connection holds the database exclusively
+// (what a commit in progress does): the query and the listing must either report an error
+// or return the complete committed content - never a silently empty or partial result
+// (Upload_vis: "database busy: no observation").
+func upLockedRead(c *upCase) Verdict {
+	a, err := upNewApp(false, true)
+	if err != nil {
+		return fail("harness", "%v", err)
+	}
+	defer a.close()
+	body := upBuildBody(c.Files, c.Recs, 0, 0, 4242+c.ID)
+	if code, resp := a.post(body.ctype, bytes.NewReader(body.data)); code != 200 {
+		return fail("harness", "upload failed: %d %s", code, resp)
+	}
+	want := c.Files * c.Recs
+	count := func() (int, error) {
+		q := a.db.Query("")
+		n := 0
+		for q.Next() {
+			n++
+		}
+		err := q.Err()
+		q.Close()
+		return n, err
+	}
+	list := func() (int, error) {
+		ul := a.db.ListUploads("", nil, 10)
+		n := 0
+		for ul.Next() {
+			n += ul.Info().Count
+		}
+		err := ul.Err()
+		ul.Close()
+		return n, err
+	}
+	if n, err := count(); err != nil || n != want {
+		return fail("harness", "unlocked read: %d records, err %v, want %d", n, err, want)
+	}
+	raw, err := sql.Open("sqlite3", a.dsn)
+	if err != nil {
+		return fail("harness", "%v", err)
+	}
+	defer raw.Close()
+	conn, err := raw.Conn(context.Background())
+	if err != nil {
+		return fail("harness", "%v", err)
+	}
+	defer conn.Close()
+	if _, err := conn.ExecContext(context.Background(), "BEGIN EXCLUSIVE"); err != nil {
+		return fail("harness", "BEGIN EXCLUSIVE: %v", err)
+	}
+	n1, err1 := count()
+	n2, err2 := list()
+	conn.ExecContext(context.Background(), "ROLLBACK")
+	if err1 == nil && n1 != want {
+		return fail("read-error-swallowed", "Query(\"\") while the database is locked by another connection: %d of %d records and Err() == nil", n1, want)
+	}
+	if err2 == nil && n2 != want {
+		return fail("read-error-swallowed", "ListUploads while the database is locked by another connection: counts sum to %d, want %d, and Err() == nil", n2, want)
+	}
+	if n, err := count(); err != nil || n != want {
+		return fail("records-lost-after-lock", "after the lock was released: %d records, err %v, want %d", n, err, want)
+	}
+	return pass()
+}
+
 func famUpload(mode string, args []string) error {
 	if mode == "inflight" {
 		return upInflight(args)
@@ -1009,6 +1076,8 @@ func famUpload(mode string, args []string) error {
 		switch c.Tag {
 		case "fault":
 			return upReplayFault(&c)
+		case "lockedread":
+			return upLockedRead(&c)
 		case "ids":
 			evs, v := upReplayIDs(&c)
 			if evOut != nil {
